@@ -20,6 +20,9 @@ func main() { cli.Main("C03", runC03) }
 func c03Layout(r *emit.Rng) ([]float64, string) {
 	switch r.Intn(12) {
 	case 0:
+		if r.Bool() {
+			return []float64{}, "layout:empty-non-nil(default)" // a slice of length zero means the default buckets too
+		}
 		return nil, "layout:empty(default)"
 	case 1: // linear
 		n := 1 + r.Intn(60)
@@ -47,7 +50,13 @@ func c03Layout(r *emit.Rng) ([]float64, string) {
 		n := 2 + r.Intn(40)
 		bs := prometheus.LinearBuckets(0, 1, n)
 		i := r.Intn(n - 1)
-		switch r.Intn(5) {
+		switch r.Intn(8) {
+		case 5: // the only ordering violation involves a trailing +Inf
+			return append(bs[:1+r.Intn(n-1)], math.Inf(1), math.Inf(1)), "layout:invalid"
+		case 6:
+			return []float64{math.Inf(1), math.Inf(1)}, "layout:invalid"
+		case 7:
+			return append(bs[:r.Intn(3)], math.NaN(), math.Inf(1)), "layout:invalid"
 		case 0:
 			bs[i+1] = bs[i]
 		case 1:
@@ -144,7 +153,7 @@ func c03RunImpl(bs []float64, ops []float64, isWrite []bool) (panicked bool, out
 		}()
 		var in []float64
 		if bs != nil {
-			in = append([]float64{}, bs...)
+			in = append([]float64{}, bs...) // non-nil even when empty
 		}
 		h = prometheus.NewHistogram(prometheus.HistogramOpts{Name: "h", Help: "h", Buckets: in})
 	}()
